@@ -312,8 +312,9 @@ class Emitted:
 def splice_fn(it_spec, item, contract, unit, em, extraction, active=None, features=()):
     """emit one function"""
     key = it_spec["key"]
-    src_sig = strip_comments(item.sig)
-    src_body = strip_comments(item.body_text)
+    bodiless = item.body is None   # trait method declaration
+    src_sig = strip_comments(item.sig if not bodiless else item.text.rstrip().rstrip(";"))
+    src_body = strip_comments(item.body_text) if not bodiless else "{ }"
     # ---- signature
     sig = drop_attrs(src_sig, keep_re=r"^$")
     sig = drop_vis(sig)
@@ -407,6 +408,7 @@ def splice_fn(it_spec, item, contract, unit, em, extraction, active=None, featur
             if i >= len(body):
                 raise Unsupported("lost anchor: %s @after /%s/ (no statement end)" % (key, m.group(1)))
             body = body[:i + 1] + "\n" + "\n".join("/*@hint after|%s*/ " % c.name() + c.text for c in hint) + "\n" + body[i + 1:]
+    body = splice_closures(body, contract, key, active)
     body = splice_loops(body, contract, key, active)
     ex = select_hints(contract.get("exit"), active) if contract is not None else []
     if ex:
@@ -417,12 +419,76 @@ def splice_fn(it_spec, item, contract, unit, em, extraction, active=None, featur
     if entry:
         etxt = "\n".join("/*@hint entry|%s*/ " % c.name() + c.text for c in entry)
         body = "{\n" + etxt + "\n" + body.lstrip()[1:]
-    emit_body(body, key, em)
+    if bodiless:
+        em.add(";", item=key, part="sig")
+    else:
+        emit_body(body, key, em)
     extraction.append(dict(key=key, file=os.path.relpath(item.path, REPO), lines=[a, b], sha256=h, inactive=bool(it_spec.get("_inactive")),
                            rules=[dict(rule=r, original=o) for r, o in log]))
 
 
 _MARK = re.compile(r"/\*@(\w+)(?: ([^*]*))?\*/")
+
+
+def splice_closures(body, contract, key, active=None):
+    """`@closure N`: a contract for the N-th closure of the function (textual order): the section's text (a return
+    binder and `requires` / `ensures` clauses) is placed between the closure's parameter list and its body, which is
+    wrapped in braces if it is an expression"""
+    if contract is None:
+        return body
+    secs = {}
+    for sec in contract.sections:
+        m = re.match(r"closure (\d+)$", sec)
+        if m:
+            secs[int(m.group(1))] = select_hints(contract.get(sec), active)
+    if not secs:
+        return body
+    toks = lex(body)
+    mm = match_map(toks)
+    # closures: `|params|` or `||` in expression position (after `(`, `,`, `=`, `move`, `{`, `;`, `return`)
+    found = []
+    i = 0
+    while i < len(toks):
+        t = toks[i]
+        prv = toks[i - 1].text if i > 0 else "{"
+        if t.text in ("|", "||") and (prv in ("(", ",", "=", "move", "{", ";", "return", "=>")):
+            if t.text == "||":
+                pend = i
+            else:
+                j = i + 1
+                while toks[j].text != "|":
+                    if toks[j].text in ("(", "["):
+                        j = mm[j]
+                    j += 1
+                pend = j
+            # body: block or expression up to the closing of the enclosing call
+            b0 = pend + 1
+            if toks[b0].text == "{":
+                b1 = mm[b0]
+                found.append((toks[pend].end, toks[b0].start, toks[b1].end, True))
+                i = b0 + 1
+                continue
+            j = b0
+            while j < len(toks) and toks[j].text not in (")", ",", ";", "}"):
+                if toks[j].text in ("(", "[", "{"):
+                    j = mm[j]
+                j += 1
+            found.append((toks[pend].end, toks[b0].start, toks[j - 1].end, False))
+            i = b0
+            continue
+        i += 1
+    if max(secs) > len(found):
+        raise Unsupported("lost anchor: %s has %d closures, contract mentions closure %d" % (key, len(found), max(secs)))
+    for n in sorted(secs, reverse=True):
+        if not secs[n]:
+            continue
+        pend, bstart, bend, is_block = found[n - 1]
+        spec = " " + " ".join(c.text.strip() for c in secs[n]) + " "
+        btxt = body[bstart:bend]
+        if not is_block:
+            btxt = "{ " + btxt + " }"
+        body = body[:pend] + spec + btxt + body[bend:]
+    return body
 
 
 def emit_clauses(cl, em, key, part):
@@ -533,6 +599,12 @@ def emit_plain(it_spec, item, unit, em, extraction, features=()):
     extraction.append(dict(key=key, file=os.path.relpath(item.path, REPO), lines=[a, b], sha256=h, rules=[]))
 
 
+def unit_attrs(unit_dir):
+    """`crate_attrs` of the unit (needs the unit module; loaded lazily by generate)"""
+    return _UNIT_ATTRS.get(unit_dir, [])
+
+
+_UNIT_ATTRS = {}
 _cache = {}
 
 
@@ -563,6 +635,8 @@ def generate(unit_dir, features=("parallel", "shred-derive"), mode="T", active=N
     extraction = []
     em.add("// GENERATED by vx from %s  (features=%s mode=%s) -- do not edit" % (REPO, ",".join(features), mode), part="gen")
     em.add("#![allow(unused_imports, unused_variables, unused_mut, dead_code, unused_parens, unused_braces, non_snake_case)]", part="gen")
+    for a in unit.get("crate_attrs", []):
+        em.add(a, part="gen")
     em.add("use vstd::prelude::*;", part="gen")
     em.add("verus! {", part="gen")
     for f in unit.get("prelude", []):
